@@ -131,12 +131,13 @@ static bool extra(const std::vector<std::string>& t, const std::vector<std::stri
         const mjContact& c = d->contact[id];
         printf(",\"dim\":%d,\"adr\":%d", c.dim, c.efc_address);
         if (ty == mjCNSTR_CONTACT_ELLIPTIC && c.efc_address == i && i + c.dim <= d->nefc) {
-          // slack = f_n - || f_t / mu_i ||, widened by eps * scale (rounding of the norm; PGS solves the cone QCQP iteratively)
+          // cone membership f_n >= || f_t / mu_i ||, judged on squares with the tolerance of the solver's own cone
+          // projection: mju_QCQP accepts |y|^2 - r^2 < 1e-10 (absolute); doubled, plus 1e-9 relative for rounding
           double s = 0; for (int j = 1; j < c.dim; j++) { double q = d->efc_force[i + j] / c.friction[j - 1]; s += q * q; }
-          double nrm = sqrt(s), scale = std::max(fabs(f), nrm);
-          double slack = f - nrm;
-          print_key("sl", isfinite(slack) ? slack + 1e-8 * scale : -1.0);
-          printf(",\"slx\":%d", slack >= 0 ? 1 : 0);        // exact sign (reported, not judged)
+          double f2 = f * f, nrm = sqrt(s), scale = std::max(fabs(f), nrm);
+          double slack2 = f2 - s + 2e-10 + 1e-9 * std::max(f2, s);
+          print_key("sl", isfinite(slack2) ? slack2 : -1.0);
+          printf(",\"slx\":%d,\"slr\":\"%.3g\"", f - nrm >= 0 ? 1 : 0, scale > 0 ? (f - nrm) / scale : 0.0);   // diagnostics (not judged)
         }
       }
       printf("}");
